@@ -5,6 +5,7 @@
 import Driver.Wire
 import KodaModel.Cache
 import KodaModel.Render
+import KodaModel.Schema
 
 open Lean (Json)
 open Koda Koda.Wire
@@ -122,6 +123,56 @@ def handleRender (j : Json) : D Json := do
   | .ok s => pure (Json.mkObj [("ok", serJ s), ("lines", lines)])
   | .error e => pure (Json.mkObj [("raised", exnJ e), ("lines", lines)])
 
+partial def jJ : J → Json
+  | .null => Json.null
+  | .bool b => b
+  | .int i => Json.mkObj [("i", i)]
+  | .float f => Json.mkObj [("f", valJ (.float f))]
+  | .str s => Json.mkObj [("s", natsJ s)]
+  | .arr xs => Json.mkObj [("a", Json.arr (xs.map jJ).toArray)]
+  | .obj kvs => Json.mkObj [("o", Json.arr (kvs.map (fun p => Json.arr #[natsJ p.1, jJ p.2])).toArray)]
+  | .nonjson v => Json.mkObj [("x", valJ v)]
+
+/-- printer tables: `[[value, text|null], …]` keyed by the canonical JSON of the value -/
+def getPrintTable (j : Json) (k : String) : D (List (String × Option (List Nat))) :=
+  match fldOpt j k with
+  | none => pure []
+  | some a => do
+    (← a.getArr?).toList.mapM (fun e => do
+      let p ← e.getArr?
+      if p.size ≠ 2 then throw "bad printer entry"
+      let v ← getVal p[0]!
+      let t ← match p[1]! with
+        | .null => pure none
+        | t => do pure (some (← (← t.getArr?).toList.mapM (fun x => x.getNat?)))
+      pure ((valJ v).compress, t))
+
+def handleSchema (j : Json) : D Json := do
+  let v ← getV (← fld j "v")
+  let tvs ← natList j "typeVids"
+  let prj := match fldOpt j "printer" with | some o => o | none => Json.mkObj []
+  let strT ← getPrintTable prj "str"
+  let isoT ← getPrintTable prj "iso"
+  let decT ← getPrintTable prj "decode"
+  let patT ← getPrintTable prj "patBytes"
+  let look (t : List (String × Option (List Nat))) (v : PyVal) : Option (List Nat) :=
+    (t.find? (fun e => e.1 == (valJ v).compress)).bind (·.2)
+  let pr : Printer := { str := look strT, iso := look isoT,
+                        decode := fun b => look decT (.bytes b), patBytes := fun b => look patT (.bytes b) }
+  let ctx : RefCtx ← match fldOpt j "named" with
+    | none => pure none
+    | some n => do pure (some ((← natList n "ref") ++ (← natList n "name")))
+  let nameOpt : Option (List Nat) ← match fldOpt j "named" with
+    | none => pure none
+    | some n => do pure (some (← natList n "name"))
+  match toSchema pr ctx tvs v with
+  | .ok s =>
+    let s' : J := match nameOpt with
+      | none => s
+      | some nm => J.obj [(nm, s)]
+    pure (Json.mkObj [("ok", jJ s'), ("jsonOnly", jsonOnly s')])
+  | .error e => pure (Json.mkObj [("raised", exnJ e)])
+
 def handle (line : String) : Json :=
   match Json.parse line with
   | .error e => Json.mkObj [("error", "bad-json"), ("detail", e)]
@@ -132,6 +183,7 @@ def handle (line : String) : Json :=
       | "cache" => handleCache j
       | "pred" => handlePred j
       | "render" => handleRender j
+      | "schema" => handleSchema j
       | "proc" => handleProc j
       | "ping" => pure (Json.mkObj [("pong", true)])
       | op => throw s!"bad-op {op}"
